@@ -193,6 +193,8 @@ def work(item, tier, seed):
     obs0 = {p: np.asarray(R.flatten(R.to_numpy(tr0.get_choices()))[p]) for p in observed}
     ops = _ops(mname, prog, argsl, observed, latents, cont, fn, tier)
     depth = 3 if tier == "quick" else 4
+    if tier == "quick" and mname in ("scan", "vmap", "vecparam"):
+        depth = 2  # their operations are the slowest (gradient kernels on vectors / scans); depth 3-4 in thorough
     jassess = jax.jit(lambda c, *a, **k: fn.assess(c, *a, **k))
     seen = {}
     raised = set()
@@ -399,7 +401,7 @@ def main(tier, seed):
         its = [it for it in its if only in str(it)]
     res, errors = H.fan_out("checks.c05", "work", its, tier, seed)
     rule = (
-        "BFS over operation histories (depth 3 quick / 4 thorough) from a generated trace of 5 models + a batched trace; alphabet of ~20 operations "
+        "BFS over operation histories (depth 3 quick [2 for the scan / vmap / vecparam models] / 4 thorough) from a generated trace of 5 models + a batched trace; alphabet of ~20 operations "
         "per model (update x args x constraint patterns, regenerate x outcomes, mh/mala/hmc accept+reject, jit round trip; resampling with every "
         "ancestor tuple and vectorised mh for the batched trace); states = distinct canonical (choices,args) states, transitions = real operations; "
         "each work item explores the sub-tree below one first operation"
